@@ -5,7 +5,20 @@ COMMON_TRUST = [
     "rustc dev-profile semantics of integer overflow and indexing",
 ]
 CODEC_RULE = "every message type x decoding parameter (Prio3 Count/Sum/Histogram/SumVec with 2-5 aggregators, Poplar1 with several bit lengths incl. 0, Prio2, ping-pong, primitives): honest encodings from real protocol runs, truncations, extensions, single-byte mutations, every alphabet value in first/last byte, all strings of length <= 2-3 over {00,01,7f,80,fe,ff}, header extremes (level 0xFFFF, counts 2^32-1, unknown tags), random strings; non-trivial = every case (each is a decode of a distinct byte string);"
+POP = "Poplar1 over a recording XOF and the IDPF PRG recorder (the model recomputes every step from the two tables): "
 PROPS = {
+    "C03": {
+        "modules": ["PrioProofs.Props.C03"],
+        "rule": "%sbit lengths {1,2,3,5,8,16,33} (thorough 12 lengths up to 130): batches with repeated inputs, admissible sequences of 1-4 levels incl. the leaf level, sorted candidate sets mixing prefixes of the inputs, siblings and random strings; every shard, verify_init (both aggregators), both verifier_shares_to_message rounds and both verify_next rounds as a correspondence case; unshard vs plain counts; heavy-hitters loop on 4/8/12-bit inputs; thorough: a 21850-bit tree at levels 21845-21848; non-trivial = all;" % POP,
+        "trusted": COMMON_TRUST + ["TurboSHAKE128 and the fixed-key AES PRG are parameters of the model (recorded tables in the correspondence)"],
+        "assumptions": ["bit lengths above 130 are exercised by the oracle only (21850 bits, thorough)"],
+    },
+    "C04": {
+        "modules": ["PrioProofs.Props.C04"],
+        "rule": "%sbit lengths {1,2,3,5,8} (thorough up to 33), levels first / middle / last, candidates = on-path prefix, its sibling and random strings; per level 12 public-share alterations (data value, authenticator, seed bit, control bit of the correction word at the first, queried and last level), 5-7 alterations of each input share, 6 round-one share elements, 3 message elements, both round-two shares, a cancelling pair; every step as a correspondence case; non-trivial = all;" % POP,
+        "trusted": COMMON_TRUST + ["TurboSHAKE128 and the fixed-key AES PRG are parameters of the model"],
+        "assumptions": ["the negligible-probability clause is not expressed; the oracle samples it with random keys"],
+    },
     "C19": {
         "modules": ["PrioProofs.Props.C19"],
         "rule": "input lengths {1,2,3,4,7,8,15,16,33,100} (thorough 15 lengths up to 1000): all-zero, all-one and random 0/1 vectors, each also with one entry replaced by 2, p-1, 3 or a random value; per report: reconstructed client proof vs the model's construct_proof, leader share, both verification messages at the derived point and at 0, 1, two interpolation nodes and a random point, the decision, the evaluation point from the HMAC/AES stream, streams with planted out-of-range / node / identity draws, alterations (+1, -1, random) of the first/last data element, f0, g0, h0, first/last packed element (thorough: 6 more positions), wrong-length shares; non-trivial = all;",
@@ -38,13 +51,13 @@ PROPS = {
     },
     "C17": {
         "modules": ["PrioProofs.Props.C17"],
-        "rule": "Prio3 over a recording XOF (every XOF invocation's key and output is recorded and the model recomputes the whole step from that table): Count, Sum at bit-width edges (incl. a 34-bit bound), Histogram with dividing / non-dividing / oversize chunks, SumVec, MultihotCountVec, L1BoundSum x (aggregators, proofs) in {(2,1),(3,1),(5,2),(2,3)}; every message passes through its wire codec; pairs of measurements sharded with identical randomness and nonce; byte-wise comparison of helper shares, blinds, joint-randomness parts and the leader-share difference; non-trivial = all;",
+        "rule": "Poplar1 (bit lengths 1-64): pairs of inputs sharded with identical randomness and nonce, input shares compared byte-wise, each shard a correspondence case; Prio3 over a recording XOF (every XOF invocation's key and output is recorded and the model recomputes the whole step from that table): Count, Sum at bit-width edges (incl. a 34-bit bound), Histogram with dividing / non-dividing / oversize chunks, SumVec, MultihotCountVec, L1BoundSum x (aggregators, proofs) in {(2,1),(3,1),(5,2),(2,3)}; every message passes through its wire codec; pairs of measurements sharded with identical randomness and nonce; byte-wise comparison of helper shares, blinds, joint-randomness parts and the leader-share difference; non-trivial = all;",
         "trusted": COMMON_TRUST,
-        "assumptions": ["the Poplar1 half of the property is checked by the Poplar1 oracle (see C03)"],
+        "assumptions": [],
     },
     "C18": {
         "modules": ["PrioProofs.Props.C18"],
-        "rule": "Prio3 over a recording XOF (every XOF invocation's key and output is recorded and the model recomputes the whole step from that table): Count, Sum at bit-width edges (incl. a 34-bit bound), Histogram with dividing / non-dividing / oversize chunks, SumVec, MultihotCountVec, L1BoundSum x (aggregators, proofs) in {(2,1),(3,1),(5,2),(2,3)}; every message passes through its wire codec; every single-aggregator and all-aggregator substitution of context, nonce and verification key, swapped helper shares and identifiers, another algorithm identifier; non-trivial = all;",
+        "rule": "Poplar1 (bit lengths 1-33, first and leaf level): context / nonce / key substituted at the leader, the helper or both, swapped and duplicated shares, every step a correspondence case; Prio3 over a recording XOF (every XOF invocation's key and output is recorded and the model recomputes the whole step from that table): Count, Sum at bit-width edges (incl. a 34-bit bound), Histogram with dividing / non-dividing / oversize chunks, SumVec, MultihotCountVec, L1BoundSum x (aggregators, proofs) in {(2,1),(3,1),(5,2),(2,3)}; every message passes through its wire codec; every single-aggregator and all-aggregator substitution of context, nonce and verification key, swapped helper shares and identifiers, another algorithm identifier; non-trivial = all;",
         "trusted": COMMON_TRUST + ["rejection under a mismatch relies on the XOF behaving as a random oracle: the theorems show that every mismatched quantity enters a tag or binder injectively and that the nonce exception is exact; the correspondence and oracle check the outcomes"],
         "assumptions": [],
     },
